@@ -220,6 +220,14 @@ def run(chk):
         f = fx.fn1("Opm::Action::Result::Impl::" + fnname)
         asg = [show(n) for n in stmt_list(f["body"]) if n["k"] == "Bin" and n["op"] == "="]
         calls = [c["m"] for c in mcalls(f["body"], {"makeUnion", "makeIntersection", "clear"})]
+        iffs = [n for n in stmt_list(f["body"]) if n["k"] == "If"]
+        guard = show(iffs[0]["cond"]) if iffs else None
+        then_calls = [c["m"] for c in mcalls(iffs[0]["then"], {"makeUnion", "makeIntersection", "clear"})] if iffs else []
+        else_calls = [c["m"] for c in mcalls(iffs[0].get("else") or {"k": "Block", "c": []}, {"makeUnion", "makeIntersection", "clear"})] if iffs else []
+        chk.instance(r_logic, fnname + ":guard", sample=dict(guard=guard, then=then_calls, otherwise=else_calls))
+        order_ok = iffs and stmt_list(f["body"]).index(iffs[0]) == 1
+        if guard != "(!this.result_)" or then_calls != ["clear"] or else_calls != [setfn] or not order_ok:
+            chk.violation(r_logic, fnname + ":guard", "Result::Impl::%s: the entity set must be cleared exactly when the combined condition value (this->result_, after the update) is false and combined with %s otherwise; found guard %s, then %s, else %s - a false sub-condition would contribute wells" % (fnname, setfn, guard, then_calls, else_calls), f["file"], f["l"])
         chk.instance(r_logic, fnname, sample=dict(assign=asg, calls=calls))
         if asg != ["(this.result_ = (this.result_ %s rhs.result_))" % boolop] or sorted(calls) != sorted(["clear", setfn]):
             chk.violation(r_logic, fnname, "Result::Impl::%s must combine the condition values with %s and the entity sets with %s: %s / %s" % (fnname, boolop, setfn, asg, calls), f["file"], f["l"])
